@@ -10,6 +10,7 @@ XT = {"tspec": "RtcTrace.tla", "tcfg": "RtcTrace.cfg"}
 IT = {"tspec": "IoTrace.tla", "tcfg": "IoTrace.cfg"}
 WT = {"tspec": "WiringTrace.tla", "tcfg": "WiringTrace.cfg"}
 ET = {"tspec": "RobsErrTrace.tla", "tcfg": "RobsErrTrace.cfg"}
+HT = {"tspec": "HandleTrace.tla", "tcfg": "HandleTrace.cfg"}
 SIM = ["-simulate", "num={N}", "-depth", "8", "-seed", "{SEED}"]
 
 
@@ -400,6 +401,24 @@ CHECKS = {
             # send of an item with an embedded channel abandoned between its data and its port message
             dict(TT, kind="trace", name="typed_base_portabort", workload="typed_base", n=(160, 2000), opts={"variant": 2}, require={r'"id":1,"res":"cancel"': 100},
                  nontrivial=[r'"res":"cancel"', r'"r":"item"']),
+        ],
+    },
+    "C20": {
+        "rule": "handles: a value with a logging destructor behind a handle (with or without a provider kept by the scenario); copies are cloned, dropped, "
+                "cast, sent between three endpoints in both directions along a seeded walk of 5-13 steps and accessed by as_ref / into_inner at the original "
+                "and at another type on every endpoint; lazy values: Lazy<Vec<u8>> and LazyBlob of 0, 1, chunk-1, chunk, chunk+1, buffer, buffer+1 .. 3 x buffer "
+                "bytes forwarded over 1-3 connections and fetched at the far end, provider dropped in an eighth of the runs, optional cut during the fetch; "
+                "distinct = distinct event sequences; non-trivial = a copy came back to the origin and was accessed / a fetch of more than one chunk",
+        "assumptions": ["the stored value's destructor logs, so release and double release are visible"],
+        "legs": [
+            model("Handle_MC.cfg", spec="Handle.tla", min_states=800),
+            model("Handle_DevAnywhere.cfg", spec="Handle.tla", expect_violation="C20_Confined"),
+            dict(HT, kind="trace", name="handle", workload="handle", n=(400, 6000), opts={}, require={r'"res":"value"': 150, r'"res":"unknown"': 100, r'"res":"mismatch"': 30, r'"ev":"hd_arrived"': 300},
+                 nontrivial=[r'"ep":0,"ev":"hd_arrived"', r'"ev":"hd_res"']),
+            dict(HT, kind="trace", name="handle_cut", workload="handle", n=(100, 1500), opts={"cut": 1}, require={r'"ev":"fault"': 35}, nontrivial=[r'"ev":"fault"']),
+            dict(HT, kind="trace", name="lazy", workload="lazy", n=(300, 5000), opts={}, require={r'"ok":true': 200, r'"kind":"blob"': 100, r'"hops":3': 50},
+                 nontrivial=[r'"ev":"lz_res"']),
+            dict(HT, kind="trace", name="lazy_cut", workload="lazy", n=(200, 3000), opts={"cut": 1}, require={r'"ok":false': 40, r'"ev":"fault"': 150}, nontrivial=[r'"ev":"fault"']),
         ],
     },
 }
